@@ -36,7 +36,9 @@ Inductive carrier :=
   | CResumeInfo | CPatchResume | CPatchWrite | CPatchClose
   | CCommitResume | CCommitWrite | CCommitCommit
   | CMountBlob | CPushManifest | CDeleteBlob | CDeleteManifest | CDeleteTag
-  | CRepositories | CTags | CReferrers.
+  | CRepositories | CTags | CReferrers
+  (* the same listings failing on a page after the first (the client's pager loop) *)
+  | CRepositoriesLater | CTagsLater.
 
 Definition carrier_head (c : carrier) : bool :=
   match c with CResolveBlob | CResolveManifest | CResolveTag => true | _ => false end.
